@@ -49,12 +49,13 @@ def run(ctx):
 
 def check_cfg(ctx, fx, cfg):
     # R07.1
-    fns = check_marker_flow(ctx, fx, "R07.1", "Restart", 2)
+    fns = check_marker_flow(ctx, fx, "R07.1", "Restart", 1)  # every entry point below must reach one
     for e in RESTART_ENTRIES:
         f = fx.fn(e)
         if not ctx.require(f is not None, "R07.1", "entry:%s@%s" % (e, cfg), "restart entry point not found"):
             continue
-        ctx.require(e in fns and not f.get("is_async"), "R07.1", "entry:%s@%s" % (e, cfg), "restart must enqueue Payload::Restart synchronously through the forcing closure", fn=e, site=f["loc"])
+        from props.c04 import entry_hit
+        ctx.require(entry_hit(ctx, fx, e, fns, RESTART_ENTRIES, "Restart") is not None and not f.get("is_async"), "R07.1", "entry:%s@%s" % (e, cfg), "restart must enqueue Payload::Restart synchronously through the forcing closure", fn=e, site=f["loc"])
     from props.c04 import check_submit_on_ok
     for e in RESTART_ENTRIES:
         check_submit_on_ok(ctx, fx, "R07.1", e, set(RESTART_ENTRIES))
@@ -90,12 +91,22 @@ def check_cfg(ctx, fx, cfg):
                 if g["kind"] != "coroutine":
                     continue
                 gc = [(bi, t) for bi, t in ctx.body(fx, g).normal_calls() if nfa.trait_method(loops.T_RS, "refresh")(t)]
-                if gc:
+                # (a helper that dequeues: the pump. One that is merely handed the actor for the refresh and gives it back —
+                # `Self::restart(actor, ctx).await?` — is looked at inlined, below)
+                if gc and any(loops.is_mailbox_next(t2) for _b2, t2 in ctx.body(fx, g).normal_calls()):
                     hc = [ht for _hb, ht in b.normal_calls() if not (ht.get("callee") or "").endswith(("Future::poll", "poll_unpin")) and fx.callee_fn(ht) is not None and fx.callee_fn(ht)["def"] == g.get("parent")]
                     if len(hc) == 1:
                         calls, hcall = gc, hc[0]
                         b, f = ctx.body(fx, g), g
                     break
+        if not calls:
+            # the refresh may sit in a small private helper the loop awaits (`actor = Self::restart(actor, &mut self.ctx).await?`):
+            # the rule is evaluated on the loop body with crate-private helpers inlined
+            import inline
+            ib = inline.body(ctx, fx, f, inline.not_public)
+            icalls = [(bi, t) for bi, t in ib.normal_calls() if nfa.trait_method(loops.T_RS, "refresh")(t)]
+            if len(icalls) == 1:
+                b, calls = ib, icalls
         if not ctx.require(len(calls) == 1, "R07.2", "one-refresh-site@" + cfg, "expected exactly one refresh call in the plain loop", fn=f["def"], site=f["loc"]):
             continue
         bi, t = calls[0]
@@ -208,7 +219,8 @@ def check_cfg(ctx, fx, cfg):
                 continue
             # the loop constructors and the helpers that merely forward the actor to them (`env.launch::<P>(actor)`)
             mk_ = graph.forwarding_closure(fx, loops.maker_params(fx, "actor"), roots, lambda g_: ctx.body(fx, g_))
-            is_env = lambda t, mk_=mk_: (t.get("callee") or "").startswith("environment::Environment::<A, R>::") and ((t.get("callee") or "").endswith(("from_channel", "create_loop", "create_loop_on_stream")) or t.get("callee") in mk_)
+            _ctors = loops.env_ctors(fx)[1]
+            is_env = lambda t, mk_=mk_, _ctors=_ctors: (t.get("callee") or "").startswith("environment::Environment::<A, R>::") and ((t.get("callee") or "").endswith(("create_loop", "create_loop_on_stream")) or t.get("callee") in mk_ or t.get("callee") in _ctors)
             # the wiring may sit in a function the terminal hands its builder to (spawn = spawn_owning().detach(), a shared private helper)
             wf = graph.wiring_fn(fx, term, is_env) or f
             b = ctx.body(fx, wf)
